@@ -221,7 +221,8 @@ def hostile_args(rng, ex, L, hg):
         {'m': 'find_settings', 'r': ri, 'a': [rng.choice(HOSTILE_SETTINGS), rng.choice([0, n, 10 ** 6]), rng.choice([None, -10 ** 6, 0])]},
         {'m': 'new', 'cls': rng.choice(['AnsiString', 'AnsiStr']), 'a': [rng.choice(['x', {'$': ri}]), rng.choice(HOSTILE_SETTINGS)]},
         {'m': 'new', 'cls': rng.choice(['AnsiString', 'AnsiStr']), 'a': [rng.choice([5, {'py': 'None'}, {'py': 'bytes'}])]},
-        {'m': 'format', 'r': ri, 'a': [rng.choice(['+5', ' <5', 'ab<5', '<5:notacolor', ':rgb()', '^3000', '<-1', ':[', '\x1b<5', '<5:;;', ':-1'])]},
+        {'m': 'format', 'r': ri, 'a': [rng.choice(['+5', ' <5', 'ab<5', '<5:notacolor', ':rgb()', '^3000', '<-1', ':[', '\x1b<5', '<5:;;', ':-1', '>99999999999999999999', '\n<5', '>5\n',
+                                                           '9223372036854775808:red'])]},
         {'m': 'to_str', 'r': ri, 'a': [rng.choice(['>5:red', 'x', ''])], 'k': {'optimize': False, 'reset_start': True}},
         {'m': 'format_matching', 'r': ri, 'a': [rng.choice(['', '(', '[', 'a|', '.*']), 'bold'], 'k': {'regex': rng.random() < 0.6, 'count': rng.choice([-1, 0, 1])}},
         {'m': 'unformat_matching', 'r': ri, 'a': [rng.choice(['', 'a*', '.']), rng.choice(HOSTILE_SETTINGS)], 'k': {'regex': True}},
